@@ -20,7 +20,7 @@ RULE = ("(i) the matrix backend in {default, torch, jax, fortran} x solver in {e
         "function or result is returned; for inputs and parameter updates addressed to a non-existent variable at least a warning; "
         "the check never asserts that a supported request succeeds; non-trivial = all; distinct = distinct (model, mutation) hash")
 DECIDING = ['unsupported_combos', 'misspelt_edge_paths', 'misspelt_output_paths', 'misspelt_input_paths', 'misspelt_update_paths',
-            'removed_variable', 'reserved_names', 'two_outputs', 'cyclic_node', 'missing_operator_value', 'shaped_delay_requests_refused']
+            'removed_variable', 'reserved_names', 'two_outputs', 'cyclic_node', 'missing_operator_value', 'shaped_delay_requests_refused', 'notices_after_earlier_compile']
 ASSUMPTIONS = ['a supported combination that raises is not this property\'s business (C02)',
                'misspelling = appending "_zz" to one path component, which never names an existing object']
 CASE_TIMEOUT = 300
@@ -265,10 +265,17 @@ def expect_raise(fn, what):
     return f"{what}: no exception was raised (returned {type(out).__name__})"
 
 
-def expect_warn_or_raise(fn, what):
+def expect_warn_or_raise(fn, what, prelude=None):
+    """The notice must reach the user under the warning filters that are in force at that moment - also after earlier API calls
+    (`prelude`: compile a valid model first) have installed their own filters; the check does not reset the filters."""
     try:
         with warnings.catch_warnings(record=True) as w:
-            warnings.simplefilter('always')
+            if prelude is None:
+                warnings.simplefilter('always')
+            else:
+                warnings.resetwarnings()      # the interpreter's default filters (the harness itself silences warnings)
+                prelude()                     # ... plus whatever the earlier API call installs
+                del w[:]
             out = fn()
             if any('PyRates' in type(x.message).__name__ or 'not been found' in str(x.message) or 'not found' in str(x.message).lower()
                    or 'does not exist' in str(x.message).lower() for x in w):
@@ -340,7 +347,11 @@ def malformed_case(case, ctx, rnd, mech, res):
         bad = misspell(path, comp)
         res['sample']['mutation'] = bad
         mech[kind] = 1
-        return expect_warn_or_raise(run_with(spec, inputs={bad: np.ones(3)}), f"extrinsic input addressed to non-existent variable {bad}")
+        pre = run_with(spec) if rnd.random() < 0.5 else None
+        if pre:
+            mech['notices_after_earlier_compile'] = mech.get('notices_after_earlier_compile', 0) + 1
+        return expect_warn_or_raise(run_with(spec, inputs={bad: np.ones(3)}), f"extrinsic input addressed to non-existent variable {bad}"
+                                    + (' (after an earlier valid run in the same process)' if pre else ''), prelude=pre)
     if kind == 'misspelt_update_paths':
         cs = [k for k in ref.param_keys if ref.kind[k] == 'const']
         path = '/'.join(rnd.choice(cs))
@@ -348,7 +359,12 @@ def malformed_case(case, ctx, rnd, mech, res):
         bad = misspell(path, comp)
         res['sample']['mutation'] = bad
         mech[kind] = 1
-        return expect_warn_or_raise(run_with(spec, pre=lambda t: t.update_var(node_vars={bad: 0.5})), f"update_var addressed to non-existent variable {bad}")
+        pre = run_with(spec) if rnd.random() < 0.5 else None
+        if pre:
+            mech['notices_after_earlier_compile'] = mech.get('notices_after_earlier_compile', 0) + 1
+        return expect_warn_or_raise(run_with(spec, pre=lambda t: t.update_var(node_vars={bad: 0.5})),
+                                    f"update_var addressed to non-existent variable {bad}"
+                                    + (' (after an earlier valid run in the same process)' if pre else ''), prelude=pre)
     if kind == 'removed_variable':
         s2 = copy.deepcopy(spec)
         used_ops = sorted({o for n in ref.node_order for o in ref.nodes[n]['ops']})     # operators that are part of the model
@@ -429,7 +445,11 @@ def malformed_case(case, ctx, rnd, mech, res):
         if which == 'node':
             # a parameter value addressed to a node that does not exist: "at least reported by a warning, never silently dropped"
             mech['missing_node_value'] = 1
-            return expect_warn_or_raise(f, f"node-level value addressed to a non-existent node ({key})")
+            pre = run_with(spec) if rnd.random() < 0.5 else None
+            if pre:
+                mech['notices_after_earlier_compile'] = mech.get('notices_after_earlier_compile', 0) + 1
+            return expect_warn_or_raise(f, f"node-level value addressed to a non-existent node ({key})"
+                                        + (' (after an earlier valid run in the same process)' if pre else ''), prelude=pre)
         return expect_raise(f, f"node-level value for non-existent {'operator' if which == 'op' else 'variable'} {key}")
     return None
 
